@@ -870,3 +870,241 @@ Qed.
 Lemma jobs_text_R jobs t :
   render_jobs_spec jobs = Some t -> written (run_jobs R jobs) = t.
 Proof. intros H. unfold run_jobs. rewrite (jobs_text_from jobs init_state t H). reflexivity. Qed.
+
+(* ---------- the compile-time count and the values a format consumes ---------- *)
+
+Lemma positional_classify name :
+  is_positional name = match classify name with NAuto | NIndex _ => true | _ => false end.
+Proof.
+  rewrite is_positional_all_digits. unfold classify. destruct name as [|c r]; [reflexivity|].
+  destruct (all_digits (String c r)); [reflexivity|].
+  destruct (has_char "."%char (String c r) || has_char LBRACKET (String c r)); reflexivity.
+Qed.
+
+Lemma skipn_nth {A} (l : list A) : forall n, (n < length l)%nat ->
+  exists v, nth_error l n = Some v /\ skipn n l = v :: skipn (S n) l.
+Proof.
+  induction l as [|x l IH]; intros n Hn; [cbn in Hn; lia|].
+  destruct n as [|n].
+  - exists x. split; reflexivity.
+  - cbn in Hn. destruct (IH n) as (v & H1 & H2); [lia|]. exists v. split; [exact H1|exact H2].
+Qed.
+
+Lemma nth_z_nat {A} (l : list A) n v : nth_error l n = Some v -> nth_z l (Z.of_nat n) = Some v.
+Proof.
+  intros H. unfold nth_z.
+  assert (Hn : (n < length l)%nat) by (apply nth_error_Some; congruence).
+  destruct (0 <=? Z.of_nat n) eqn:E1; [|apply Z.leb_gt in E1; lia].
+  destruct (Z.of_nat n <? Z.of_nat (length l)) eqn:E2; [|apply Z.ltb_ge in E2; lia].
+  cbn. rewrite Nat2Z.id. exact H.
+Qed.
+
+(* With as many values as there are positional fields, and no numbered field, every
+   "{}" takes the next value, the values never run out and none is left over. *)
+Lemma fill_in_order_spec e ps : forall n vals,
+  has_index ps = false -> length vals = (n + positional_count ps)%nat ->
+  exists x, fill_in_order ps (skipn n vals) e = Some (x, []) /\
+            fill_pieces ps (Z.of_nat n) vals e = x.
+Proof.
+  induction ps as [|p ps IH]; intros n vals Hi Hl.
+  - cbn in Hl. exists (FOk EmptyString). cbn. rewrite skipn_all2 by lia. split; reflexivity.
+  - destruct p as [t|name spec].
+    + cbn in Hi, Hl. destruct (IH n vals Hi Hl) as (x & H1 & H2).
+      exists (fres_app (FOk t) x). cbn [fill_in_order fill_pieces]. rewrite H1, H2. split; reflexivity.
+    + cbn [has_index positional_count fill_in_order fill_pieces] in *.
+      rewrite positional_classify in Hl.
+      destruct (classify name) as [|i|nm|] eqn:Ec.
+      * destruct (skipn_nth vals n) as (v & Hv & Hs); [lia|].
+        rewrite Hs. destruct (IH (S n) vals Hi) as (x & H1 & H2); [lia|].
+        rewrite H1. eexists. split; [reflexivity|].
+        rewrite (nth_z_nat vals n v Hv). cbn [fmt_opt].
+        replace (Z.of_nat n + 1) with (Z.of_nat (S n)) by lia. rewrite H2. reflexivity.
+      * discriminate.
+      * destruct (IH n vals Hi) as (x & H1 & H2); [lia|]. rewrite H1, H2. eexists. split; reflexivity.
+      * destruct (IH n vals Hi) as (x & H1 & H2); [lia|]. rewrite H1. eexists. split; reflexivity.
+Qed.
+
+(* a numbered field beyond the values given makes the whole format fail *)
+Lemma index_out_of_range e vals name spec i ps : forall next t,
+  In (Field name spec) ps -> classify name = NIndex i -> nth_z vals i = None ->
+  fill_pieces ps next vals e <> FOk t.
+Proof.
+  induction ps as [|p ps IH]; intros next t Hin Hc Hn Hf; [contradiction|].
+  destruct Hin as [Heq|Hin].
+  - subst p. cbn [fill_pieces] in Hf. rewrite Hc, Hn in Hf. cbn in Hf.
+    destruct (fill_pieces ps next vals e); discriminate.
+  - destruct p as [lit|n0 s0]; cbn [fill_pieces] in Hf.
+    + apply fres_app_ok in Hf. destruct Hf as (x & y & _ & Hy & _). apply (IH next y Hin Hc Hn Hy).
+    + destruct (classify n0); try discriminate;
+        apply fres_app_ok in Hf; destruct Hf as (x & y & _ & Hy & _); eapply IH; eassumption.
+Qed.
+
+(* The count io_parser.printf takes values by is the number of positional fields the
+   run-time format has (after the "\n" replacement); without numbered fields the
+   i-th "{}" gets the i-th value and all values are used. *)
+Lemma field_count_matches_lemma fmt k :
+  compile_count fmt = Some k ->
+  exists ps, parse_format (unescape_nl fmt) = POk ps /\ positional_count ps = k /\
+    (has_index ps = false -> forall vals e, length vals = k ->
+       exists x, fill_in_order ps vals e = Some (x, []) /\ fill fmt vals e = x).
+Proof.
+  intros Hc. pose proof Hc as Hc'. unfold compile_count in Hc'.
+  destruct (parse_format fmt) as [ps0| |] eqn:E0; try discriminate.
+  destruct (count_unescape fmt ps0 E0) as (ps & Hp & Hn).
+  exists ps. split; [exact Hp|]. inversion Hc'; subst k. split; [exact Hn|].
+  intros Hi vals e Hl.
+  destruct (fill_in_order_spec e ps 0 vals Hi) as (x & H1 & H2); [cbn; lia|].
+  cbn [skipn] in H1. exists x. split; [exact H1|].
+  unfold fill. rewrite Hp. cbn [Z.of_nat] in H2. rewrite H2, Hi, andb_false_r.
+  destruct x; reflexivity.
+Qed.
+
+(* "{}" and "{n}" in one format: str.format rejects it, so does the model *)
+Lemma mixed_numbering_rejected fmt ps vals e t :
+  parse_format (unescape_nl fmt) = POk ps -> has_auto ps = true -> has_index ps = true ->
+  py_format (unescape_nl fmt) vals (build_named ps e) <> FOk t.
+Proof.
+  intros Hp Ha Hi Hf. pose proof (printf_text_spec fmt vals e ps t Hp Hf) as H.
+  unfold fill in H. rewrite Hp, Ha, Hi in H. destruct (fill_pieces ps 0 vals e); discriminate.
+Qed.
+
+(* ---------- the theorems for the configuration read from the source ---------- *)
+
+Lemma stdout_text events t :
+  render_spec events = Some t ->
+  written (run_io current_cfg events) = t /\ aborted (run_io current_cfg events) = false.
+Proof. rewrite cfg_current. apply stdout_text_R. Qed.
+
+Lemma output_order events m :
+  marks_spec events = Some m -> marks (run_io current_cfg events) = m.
+Proof. rewrite cfg_current. apply output_order_R. Qed.
+
+Lemma flush_writes_everything events t :
+  render_spec events = Some t ->
+  unnamed (run_io current_cfg events) = [] /\ line_pending (run_io current_cfg events) = false.
+Proof. rewrite cfg_current. apply flush_everything_R. Qed.
+
+Lemma flush_pending_values s st :
+  rel s st ->
+  written (vm_flush current_cfg st) = text_of (fold_left (fun s v => add_output (py_str v) s) (unnamed st) s) /\
+  unnamed (vm_flush current_cfg st) = [] /\ line_pending (vm_flush current_cfg st) = false.
+Proof.
+  rewrite cfg_current. intros H. destruct (flush_spec s st H) as (H1 & H2 & H3 & _). repeat split; assumption.
+Qed.
+
+Lemma job_text evs st t :
+  render_spec evs = Some t ->
+  written (run_job current_cfg evs st) = written st +++ t /\
+  line_pending (run_job current_cfg evs st) = false /\
+  unnamed (run_job current_cfg evs st) = [] /\
+  aborted (run_job current_cfg evs st) = false.
+Proof. rewrite cfg_current. apply job_text_R. Qed.
+
+Lemma jobs_text jobs t :
+  render_jobs_spec jobs = Some t -> written (run_jobs current_cfg jobs) = t.
+Proof. rewrite cfg_current. apply jobs_text_R. Qed.
+
+(* what VmIo._printf hands to the sink, as a function of the pending values *)
+Definition printf_text (fmt : string) (vals : list oval) (e : env) : fres :=
+  match parse_format (unescape_nl fmt) with
+  | POk ps => py_format (unescape_nl fmt) vals (build_named ps e)
+  | PError => FError
+  | PUnsupported => FUnsupported
+  end.
+
+Lemma printf_fields fmt vals e t : printf_text fmt vals e = FOk t <-> fill fmt vals e = FOk t.
+Proof.
+  unfold printf_text. split.
+  - destruct (parse_format (unescape_nl fmt)) as [ps| |] eqn:Ep; try discriminate.
+    apply printf_text_spec. exact Ep.
+  - intros H. destruct (printf_text_model fmt vals e t H) as (ps & Hp & Hf). rewrite Hp. exact Hf.
+Qed.
+
+(* the OUT PRINTF instruction writes that text as one output and removes exactly its
+   own values from the pending list *)
+Lemma printf_instruction fmt e u vals t st :
+  aborted st = false -> unnamed st = u ++ vals ->
+  compile_count fmt = Some (length vals) -> fill fmt vals e = FOk t ->
+  vm_out current_cfg (OpPrintf fmt e) st = set_unnamed (sink_out current_cfg t st) u.
+Proof. rewrite cfg_current. apply vm_out_printf. Qed.
+
+(* ---------- non-vacuity, and what the other accepted source texts do ---------- *)
+
+Definition iv (z : Z) : arg := Arg [] (OInt z).
+
+(* print hue print saturation, println, printf with a named field and a spec, "\n" *)
+Definition demo_events : list out_event :=
+  [EPrint (iv 120); EDevice 1; EPrint (iv 50); EPrintln0;
+   EPrintf "a\n{} {x:>4}|{:.2f}" [iv 1; Arg [] (OFloat "2.675" (0x1.5666666666666p+1)%float)] [("x", OStr "ab")];
+   EPrintf "b\n" [] []; EPrint (Arg [] (OBool true)); EPrintln (Arg [] ONone)].
+
+Example demo_spec :
+  render_spec demo_events = Some ("120 50" +++ nl +++ "a" +++ nl +++ "1   ab|2.67 b" +++ nl +++ "True None" +++ nl)
+  /\ marks_spec demo_events = Some [(1, "120")].
+Proof. split; vm_compute; reflexivity. Qed.
+
+(* a routine that prints, called in the middle of a printf value list (D39) *)
+Definition nested_events : list out_event :=
+  [EPrintf "{} {}" [iv 1; Arg [EPrint (iv 9)] (OInt 5)] []].
+
+Example nested_spec : render_spec nested_events = Some "9 1 5".
+Proof. vm_compute. reflexivity. Qed.
+
+Example nested_model : written (run_io repaired_cfg nested_events) = "9 1 5".
+Proof. vm_compute. reflexivity. Qed.
+
+(* the pinned tree: class binding, separator always owed after out, flush ends the line *)
+Definition pinned_cfg : cfg :=
+  {| c_one_sink := false; c_out_tracks_nl := false; c_sink_flush_forgets := false;
+     c_reset_flushes_sink := false; c_flush_flushes_sink := true; c_print_takes_last := false;
+     c_printf_takes_last_k := false; c_machine_reset_io := false |}.
+
+(* D29: `print 120 print 50` writes 12050 *)
+Example d29_pinned :
+  written (run_io pinned_cfg [EPrint (iv 120); EPrint (iv 50)]) = "12050"
+  /\ render_spec [EPrint (iv 120); EPrint (iv 50)] = Some "120 50".
+Proof. split; vm_compute; reflexivity. Qed.
+
+(* D35, visible once the sink is persistent (candidate fix 0014 alone): `printf "a\n" print 2` *)
+Definition cfg_0014_only : cfg :=
+  {| c_one_sink := true; c_out_tracks_nl := false; c_sink_flush_forgets := true;
+     c_reset_flushes_sink := false; c_flush_flushes_sink := true; c_print_takes_last := false;
+     c_printf_takes_last_k := false; c_machine_reset_io := false |}.
+
+Example d35_after_0014 :
+  written (run_io cfg_0014_only [EPrintf "a\n" [] []; EPrint (iv 2)]) = "a" +++ nl +++ " 2"
+  /\ render_spec [EPrintf "a\n" [] []; EPrint (iv 2)] = Some ("a" +++ nl +++ "2").
+Proof. split; vm_compute; reflexivity. Qed.
+
+(* D39, with every other repair in place: the routine's PRINT takes the outer value *)
+Definition cfg_before_0036 : cfg :=
+  {| c_one_sink := true; c_out_tracks_nl := true; c_sink_flush_forgets := true;
+     c_reset_flushes_sink := true; c_flush_flushes_sink := false; c_print_takes_last := false;
+     c_printf_takes_last_k := false; c_machine_reset_io := true |}.
+
+Example d39_before_0036 :
+  written (run_io cfg_before_0036 nested_events) = "1" /\ aborted (run_io cfg_before_0036 nested_events) = true.
+Proof. split; vm_compute; reflexivity. Qed.
+
+(* D38: an aborted job leaves a pending separator to the next job unless reset flushes the sink *)
+Definition cfg_before_0035 : cfg :=
+  {| c_one_sink := true; c_out_tracks_nl := true; c_sink_flush_forgets := true;
+     c_reset_flushes_sink := false; c_flush_flushes_sink := true; c_print_takes_last := false;
+     c_printf_takes_last_k := false; c_machine_reset_io := true |}.
+
+Definition aborting_job : list out_event :=
+  [EPrint (iv 1); EPrintf "{:d}" [Arg [] (OFloat "2.5" (0x1.4p+1)%float)] []].
+
+Example d38_before_0035 :
+  written (run_jobs cfg_before_0035 [aborting_job; [EPrint (iv 3)]]) = "1 3"
+  /\ written (run_jobs repaired_cfg [aborting_job; [EPrint (iv 3)]]) = "13".
+Proof. split; vm_compute; reflexivity. Qed.
+
+(* formats: the count, mixed numbering, an index out of range *)
+Example count_examples :
+  compile_count "{} {hue} {0:>5}\n{{}}" = Some 2%nat /\ compile_count "{" = None /\ compile_count "a}" = None
+  /\ fill "{0}{}" [OInt 1; OInt 2] [] = FError
+  /\ fill "{1}" [OInt 1] [] = FError
+  /\ fill "{2} {1} {0}" [OInt 75; OInt 50; OInt 120] [] = FOk "120 50 75"
+  /\ fill "{x} {} {}" [OInt 200; OFloat "150.0" (0x1.2cp+7)%float] [("x", OInt 100)] = FOk "100 200 150.0".
+Proof. repeat split; vm_compute; reflexivity. Qed.
